@@ -770,7 +770,6 @@ fn any_meta() -> Meta {
     }
 }
 step_harness!(
-    #[cfg(any())] // written but not run to completion on the shared box; not part of the claim
     c25_step_meta, unwind 2, Instruction::Meta(any_meta()), NO_TABLES, IO0(), &[SCALARS], ncs 0, shape 0, |o| {
     kani::cover!(o == EXEC, "meta is a no-op");
     assert!(o == EXEC);
@@ -789,7 +788,6 @@ fn any_exit_reason() -> ExitReason {
     }
 }
 step_harness!(
-    #[cfg(any())] // written but not run to completion on the shared box; not part of the claim
     c25_step_exit, unwind 2, Instruction::Exit(any_exit_reason()), NO_TABLES, IO0(), &[SCALARS], ncs 0, shape 0, |o| {
     kani::cover!(o == EXIT, "exit exits");
     assert!(o == EXIT);
@@ -849,7 +847,6 @@ step_harness!(
 
 // ---- control flow -----------------------------------------------------------------------------
 step_harness!(
-    #[cfg(any())] // written but not run to completion on the shared box; not part of the claim
     c25_step_jump, unwind 2, Instruction::Jump(any_target()), NO_TABLES, IO0(), &[MIX], ncs 0, shape 0, |o| {
     kani::cover!(o == EXEC, "jump to any address");
     kani::cover!(o == ERR, "jump to unresolved target");
@@ -875,7 +872,6 @@ step_harness!(
     kani::cover!(o == ERR, "recall: wrong context or unresolved");
 });
 step_harness!(
-    #[cfg(any())] // written but not run to completion on the shared box; not part of the claim
     c25_step_return_outermost, unwind 2, Instruction::Return, NO_TABLES, IO0(), &[MIX], ncs 0, shape 0, |o| {
     kani::cover!(o == EXIT, "outermost return exits");
     assert!(o == EXIT);
